@@ -640,6 +640,10 @@ pub fn judge_fault_free(plan: &ClientPlan, run: &ClientRun) -> Judged {
                                         name,
                                         format!("terminal completed everything {name} asked for, yet it returned {}", o.result.class()),
                                     );
+                                    if is_commit {
+                                        // C08's side: no summary is handed back for a commit the terminal carried out
+                                        j.fail("C08", "summary", "commit/lost", format!("the terminal carried the commit out and reported amount, trace number, date and time; commit returned {} and handed nothing back", o.result.class()));
+                                    }
                                 }
                             }
                             Some(false) => {
